@@ -118,6 +118,33 @@ fn main() {
             }
             0
         }
+        "mine-norm" => {
+            // mine-norm <n> <scan>: seeds whose accepted candidate sits at the norm bound of key generation
+            let n: usize = args.get(2).and_then(|s| s.parse().ok()).unwrap_or(512);
+            let scan: u64 = args.get(3).and_then(|s| s.parse().ok()).unwrap_or(4000);
+            let base = report::run_seed(seed_from_env(), "mine-norm", n as u64);
+            let seed_of = move |i: u64| -> [u8; 32] { rng::Prng::new(rng::hash_u64(base, i)).seed32() };
+            let items: Vec<u64> = (0..(scan + 199) / 200).collect();
+            let job = |c: u64| -> Vec<u8> {
+                let mut out = String::new();
+                for i in c * 200..((c + 1) * 200).min(scan) {
+                    if let Some((j, g1, gs)) = reference::keygen::accepted_candidate(seed_of(i), n, 64) {
+                        let bound = 1.3689 * 12289.0;
+                        if g1 >= 16820 || gs >= 0.9998 * bound {
+                            out.push_str(&format!("{} {} candidate {} fg_norm_sq {} gs_norm_sq {:.3}\n", n, rng::hex(&seed_of(i)), j, g1, gs));
+                        }
+                    }
+                }
+                out.into_bytes()
+            };
+            let res = isolate::fork_map(&items, report::workers(), None, &job);
+            for (_, r) in res {
+                if let Ok(b) = r {
+                    print!("{}", String::from_utf8_lossy(&b));
+                }
+            }
+            0
+        }
         "mine-seeds" => {
             let n: usize = args.get(2).and_then(|s| s.parse().ok()).unwrap_or(512);
             let scan: u64 = args.get(3).and_then(|s| s.parse().ok()).unwrap_or(4000);
